@@ -68,3 +68,17 @@ func getUserInfo(ctx, key) (r)
 lemma keyPrefixExact [C20]: forall o Bytes, o2 Bytes, k Bytes :: len(o) == 25 && len(o2) == 25 && len(k) == 33
         && prefix("o" ++ o, "o" ++ o2 ++ k) ==> o == o2
 @*/
+
+/*@
+module upgrade
+props C16
+use common core
+use common vote
+dialect neovm
+
+// C16: an upgrade runs only from a supported older version: oldest supported <= deployed version < new version.
+pure lastarg(d Any) Int = asint(aslist(d)[len(aslist(d)) - 1])
+
+func _deploy(data, isUpdate)
+  ensures [C16] isUpdate ==> PrevVersion <= lastarg(data) && lastarg(data) < Version
+@*/
